@@ -304,7 +304,10 @@ fn run_c04(input: RunInput) -> ScenFuture {
         if preempt {
             let (st2, w2) = (st.clone(), w.clone());
             let mut pr = w.rng("wl:preempt");
-            anemo::verif::set_sched_hook(Some(Box::new(move |_tag| {
+            anemo::verif::set_sched_hook(Some(Box::new(move |tag| {
+                if tag != "active-peers" {
+                    return;
+                }
                 // (scheduling points reached while the harness itself inspects the state - a
                 // borrow is held - are not preemption opportunities)
                 let take = pr.gen_bool(0.5);
